@@ -8,6 +8,8 @@
   `state` is the tuple of outer variables the body assigns; one run of the body ends in `Rs.Step.cont state'` (reached the end)
   or `Rs.Step.exit t` (left the enclosing block with that block's value `t`).  No fuel: the list is finite.
 
+  `a.checked_sub(b)` is `Rs.checkedSub a b`, `o.ok_or(e)` / `o.ok_or_else(|| e)` is `Rs.okOrElse o e`.
+
   Panics.  `Option::unwrap` / `expect` on `None`, `Result::unwrap` / `expect` on `Err` are Rust panics; they are totalised with
   `default` (like `Rs.idx`).  `assert!`, `debug_assert!`, `assert_eq!`, `unimplemented!` are panics too: the translator drops the
   statement (it lists every such site in the header of the generated file).
@@ -47,6 +49,15 @@ def popFront (q : List α) : Option α × List α :=
   | [] => (none, [])
   | a :: as => (some a, as)
 
+/-- `a.checked_sub(b)` on `usize` / `u64` (both `Nat`): `None` when the difference would be negative -/
+def checkedSub (a b : Nat) : Option Nat := if b ≤ a then some (a - b) else none
+
+/-- `o.ok_or(e)` / `o.ok_or_else(|| e)` -/
+def okOrElse (o : Option α) (e : ε) : Except ε α :=
+  match o with
+  | some a => .ok a
+  | none => .error e
+
 @[simp] theorem forInStep_nil (f : α → σ → Step σ τ) (s : σ) : forInStep [] f s = .cont s := rfl
 theorem forInStep_cons (a : α) (as : List α) (f : α → σ → Step σ τ) (s : σ) :
     forInStep (a :: as) f s = match f a s with
@@ -54,6 +65,11 @@ theorem forInStep_cons (a : α) (as : List α) (f : α → σ → Step σ τ) (s
       | .exit t => .exit t := rfl
 @[simp] theorem unwrap_some [Inhabited α] (a : α) : unwrap (some a) = a := rfl
 @[simp] theorem unwrapRes_ok [Inhabited α] (a : α) : unwrapRes (Except.ok a : Except ε α) = a := rfl
+@[simp] theorem okOrElse_some (a : α) (e : ε) : okOrElse (some a) e = .ok a := rfl
+@[simp] theorem okOrElse_none (e : ε) : okOrElse (none : Option α) e = .error e := rfl
+theorem checkedSub_of_le {a b : Nat} (h : b ≤ a) : checkedSub a b = some (a - b) := by simp [checkedSub, h]
+theorem checkedSub_of_lt {a b : Nat} (h : a < b) : checkedSub a b = none := by
+  simp only [checkedSub, Nat.not_le.mpr h, if_false]
 @[simp] theorem popFront_cons (a : α) (as : List α) : popFront (a :: as) = (some a, as) := rfl
 
 end Kestrel.Rs
